@@ -82,6 +82,14 @@ def gen_scenario(seed: int, light: bool = False) -> Dict[str, Any]:
         cells = [(i, j, 0) for i in range(dims[0]) for j in range(dims[1])]
         sc["dims"] = dims
     keys = sorted(nodes)
+    # some models keep part of their points on whole-number coordinates; a script then writes those
+    # points as ints (link end points are passed that way)
+    wr = rs.sub("whole")
+    if not light and offset == [0.0, 0.0, 0.0] and wr.chance(0.2):
+        sc["link_points_as"] = "int_where_whole"
+        for k in keys:
+            if wr.chance(0.6):
+                nodes[k] = [float(k[0]), float(k[1]), float(k[2])]
     sc["nodes"] = {f"{k[0]}_{k[1]}_{k[2]}": [round(x, 6) for x in nodes[k]] for k in keys}
     sc["cells"] = [list(c) for c in cells]
     names = list(sc["nodes"])
@@ -615,6 +623,11 @@ def run_scenario(sc: Dict[str, Any], clock_plan: Optional[str] = None, max_evals
                 if li not in clamp_of:
                     continue
                 lp, fp = grid.points[li].copy(), grid.points[fi].copy()
+                if sc.get("link_points_as") == "int_where_whole":
+                    if all(float(x).is_integer() for x in lp):
+                        lp = [int(x) for x in lp]
+                    if all(float(x).is_integer() for x in fp):
+                        fp = [int(x) for x in fp]
                 try:
                     if lk["type"] == "translation":
                         link = cb.TranslationLink(lp, fp)
